@@ -5,6 +5,7 @@ Line:  CALL \t kind[:style] \t provider \t scope \t item...
   item  P|name|S|spec|value          single hint
         P|name|T|spec;spec;..|value  tuple hint   (TO: Optional[tuple[...]])
         R|S/T/-|specs|value          return hint (or '-') and what the body returns ('!' = raises)
+        AL                           identical annotation specs share one annotation object (a type alias)
   value N | X | T,lib:dtype,d1.d2 | U:v;v;v (a tuple)
 """
 from __future__ import annotations
@@ -94,6 +95,8 @@ class Built:
         except ImportError:
             pass
         self.n = 0
+        self.alias = False
+        self.shared: dict = {}
 
     def hint_src(self, mode: str, specs: str, val_s: str) -> str:
         """source text of the type hint; annotation objects are created here (may raise SyntaxError)"""
@@ -112,10 +115,14 @@ class Built:
                 parts.append("Annotated[int, 'count']")
                 continue
             cls, opt, shape = s.split(",", 2)
-            ann = impl.class_by_name(cls)(impl.opt_shape(shape))
-            nm = f"A{self.n}"
-            self.n += 1
-            self.ns[nm] = ann
+            if self.alias and (cls, shape) in self.shared:
+                nm = self.shared[(cls, shape)]   # a type alias: one annotation object behind several hints
+            else:
+                ann = impl.class_by_name(cls)(impl.opt_shape(shape))
+                nm = f"A{self.n}"
+                self.n += 1
+                self.ns[nm] = ann
+                self.shared[(cls, shape)] = nm
             _b, bsrc = _base_for(vals[i] if i < len(vals) else "")
             h = f"Annotated[{bsrc}, {nm}]"
             h = {"0": h, "1": h + " | None", "2": h + " | int", "3": h + " | int | None", "4": f"typing.Optional[{h}]",
@@ -140,6 +147,8 @@ def op_call(kindstyle: str, prov: str, scope: str, *items: str) -> str:
     ret_src = None
     body_ret = None
     body_raises = False
+    b.alias = "AL" in items
+    items = tuple(it for it in items if it != "AL")
     try:
         for it in items:
             f = it.split("|")
